@@ -20,6 +20,7 @@ from pandas.api.types import (
     is_number,
     is_numeric_dtype,
     is_timedelta64_dtype,
+    is_unsigned_integer_dtype,
 )
 from typing_extensions import Literal
 
@@ -141,9 +142,10 @@ class Stairs:
         if not values.index.is_monotonic_increasing:
             raise ValueError("Series index must be monotonic")
 
-        if is_bool_dtype(values):
+        if is_bool_dtype(values) or is_unsigned_integer_dtype(values):
             # booleans are the numbers 0 and 1; kept as bool the arithmetic operators
-            # (negation in particular) and the NaN checks do not treat them as such
+            # (negation in particular) and the NaN checks do not treat them as such.
+            # Unsigned integers wrap around under negation and subtraction.
             values = values.astype("float64")
 
         series_values_inf_mask = np.isinf(values)
